@@ -48,13 +48,22 @@ func verifC02NewTxScene(ne, home int, conc int) *verifC02TxScene {
 	verifC02Reset()
 	sc := &verifC02TxScene{multi: NewMultiEpoch(&Options{EpochSearchConcurrency: conc})}
 	sig := verifC02Sig("sig")
+	// block-time indexes filled directly (arbitrary int64) or, viaFile, with 32-bit unsigned values and
+	// read back from their file form (real MarshalBinary -> FromBytes), as a started server has them
+	viaFile := verifChoice("viaFile", verifParam("fileModes", 1)) == 1
 	for i := 0; i < ne; i++ {
 		a := verifC02NewEpoch(verifC02TxEpochs[i])
 		a.setBlocktimeIndex(verifC02TxWindow)
 		times := make([]int64, verifC02TxWindow)
 		for k := range times {
 			times[k] = verifI64("blocktimeIndexValue")
+			if viaFile {
+				verifAssume(times[k] >= 0 && times[k] <= 0xFFFFFFFF)
+			}
 			a.e.blocktimeindex.Set(a.lo()+uint64(k), times[k])
+		}
+		if viaFile {
+			a.reloadBlocktimeIndexFromFile()
 		}
 		a.e.sigExists = &verifC02SigExists{a: a}
 		// another transaction of this epoch
@@ -94,7 +103,7 @@ func verifC02TxSceneFromParams() *verifC02TxScene {
 	home := verifChoice("home", ne)
 	conc := verifParam("conc", 0) // 0: every setting in {-1, 1..ne}
 	if conc == 0 {
-		conc = verifChoice("concurrency", ne+1)
+		conc = verifChoice("concurrency", verifParam("concChoices", ne+1))
 		if conc == 0 {
 			conc = -1
 		}
